@@ -27,7 +27,7 @@ META = dict(
                "only record <=> helpers <=> markers and the resolve actions are judged. Trusted: TLC, the JSON bridge.",
 )
 
-WITNESSES = ("WitnessTakeOther", "WitnessDoneKeeps", "WitnessLookalike", "WitnessWeave")
+WITNESSES = ("WitnessTakeOther", "WitnessDoneKeeps", "WitnessCleanMerge", "WitnessWeave")
 LINES = {1: b"a\n", 2: b"b\n", 3: b"<<<<<<< TREE\n", 4: b"z"}
 SUFFIXES = ("BASE", "THIS", "OTHER")
 BATCH = 60
